@@ -90,13 +90,18 @@ def sweep(ctx, n):
         warnings.simplefilter("ignore")
         for i in range(n):
             nps = np.random.default_rng(rng.randrange(2**31))
-            kind = ["box", "hull", "prism", "lshape"][i % 4]
+            kind = ["box", "hull", "prism", "lshape", "wedge"][i % 5]
             if kind == "box":
                 v, f = box(nps.uniform(0.5, 2, 3))
             elif kind == "hull":
                 v, f = hull(nps, rng.choice([5, 8, 12, 20]))
             elif kind == "prism":
                 v, f = prism(nps, rng.choice([3, 4, 6]))
+            elif kind == "wedge":
+                # flat wedge: the two caps are needle-shaped triangles (height/base 1e-4 … 1e-2), the sides are well shaped
+                v, f = prism(nps, 3)
+                v[[0, 3], :2], v[[1, 4], :2] = (0.0, 0.0), (1.0, 0.0)
+                v[[2, 5], :2] = (nps.uniform(0.2, 0.8), 10.0 ** nps.uniform(-4, -2))
             else:
                 v, f = lshape()
                 v = v * nps.uniform(0.5, 1.5)
@@ -109,7 +114,7 @@ def sweep(ctx, n):
             Jref = magpy.getJ(ref, inside_pt)
             done += 1
             kinds[kind] = kinds.get(kind, 0) + 1
-            for _ in range(3):
+            for _ in range(3 if kind != "wedge" else 8):
                 v2, f2 = scramble(rng, v, f)
                 m = magpy.magnet.TriangularMesh(vertices=v2, faces=f2, polarization=pol, check_selfintersecting="warn")
                 flags = (m.status_open, m.status_disconnected, m.status_selfintersecting)
